@@ -84,6 +84,21 @@ u16 tf_dmachan0dsthigh(TImpl* t) { TK(t); return k.DMAChan0GetDstHigh(); }
 u16 tf_ahbmunitsize(TImpl* t, u16 i) { TK(t); return k.AHBMGetUnitSize(i); }
 u16 tf_ahbmdirection(TImpl* t, u16 i) { TK(t); return k.AHBMGetDirection(i); }
 u16 tf_ahbmdmachannel(TImpl* t, u16 i) { TK(t); return k.AHBMGetDmaChannel(i); }
+// callback setters of the public API (function-pointer arguments become std::function objects by the real conversions)
+typedef void (*VoidFn)();
+typedef void (*AudioFn)(std::array<s16, 2>);
+void tf_setrecvhandler(TImpl* t, u8 i, VoidFn f) { TK(t); k.SetRecvDataHandler(i, f); }
+void ts_setrecvhandler(TImpl* t, u8 i, VoidFn f) { t->apbp_from_dsp.SetDataHandler(i, f); }
+void tf_setsemhandler(TImpl* t, VoidFn f) { TK(t); k.SetSemaphoreHandler(f); }
+void ts_setsemhandler(TImpl* t, VoidFn f) { t->apbp_from_dsp.SetSemaphoreHandler(f); }
+void tf_setaudiocb(TImpl* t, AudioFn f) { TK(t); k.SetAudioCallback(f); }
+void ts_setaudiocb(TImpl* t, AudioFn f) { t->btdmp[0].SetAudioCallback(f); }
+void tf_setahbmcb(TImpl* t, u8 (*r8)(u32), void (*w8)(u32, u8), u16 (*r16)(u32), void (*w16)(u32, u16), u32 (*r32)(u32), void (*w32)(u32, u32)) {
+    TK(t); ::Teakra::AHBMCallback cb; cb.read8 = r8; cb.write8 = w8; cb.read16 = r16; cb.write16 = w16; cb.read32 = r32; cb.write32 = w32; k.SetAHBMCallback(cb);
+}
+void ts_setahbmcb(TImpl* t, u8 (*r8)(u32), void (*w8)(u32, u8), u16 (*r16)(u32), void (*w16)(u32, u16), u32 (*r32)(u32), void (*w32)(u32, u32)) {
+    t->ahbm.SetExternalMemoryCallback(r8, w8, r16, w16, r32, w32);
+}
 // what each wrapper is documented to do, written against the components directly
 u16 ts_pread(TImpl* t, u32 a) { return t->memory_interface.ProgramRead(a); }
 u16 ts_dreada32(TImpl* t, u32 a) { return t->memory_interface.DataReadA32(a); }
